@@ -969,6 +969,21 @@ bool TypeAuditor::ViFilter(Cursor iter) {
   }
   const auto& argument = std::get<Typification>(maybeArgument.value());
   if (argument.IsAnyType() || (argument.IsCollection() && argument.B().Base().IsAnyType())) {
+    for (Index child = 0; child + 1 < iter.ChildrenCount(); ++child) {
+      const auto param = ChildTypification(iter, child);
+      if (!param.has_value()) {
+        return false;
+      }
+      const auto& paramType = std::get<Typification>(param.value());
+      if (!paramType.IsCollection()) {
+        OnError(
+          SemanticEID::typesNotEqual,
+          iter(child).pos.start,
+          Typification::EmptySet(), paramType
+        );
+        return false;
+      }
+    }
     return SetCurrent(Typification::EmptySet());
   }
   if (!argument.IsCollection() || !argument.B().Base().IsTuple()) {
